@@ -16,9 +16,10 @@ CONSTANTS
   BurstSizes = {1, 2}
   PskIds = {}
   PskValues = {"none"}
-  Deviations = {"F12"}
+  Deviations = {"F12", "F14"}
   MaxApps = 30
   Depth = 60
+  BootSize = 0
   WProgress = 50
   WPropose = 10
   WCommit = 25
